@@ -1,7 +1,7 @@
 CONFIG = dict(
     props=["DhcpProofs.Props.C03"],
     facts=["DhcpProofs.Facts.C03Observe"],
-    streams=[("v4dec", 4000, 30000), ("v6dec", 6000, 40000), ("c03x", 12000, 120000)],
+    streams=[("v4dec", 4000, 30000), ("v6dec", 6000, 40000), ("c03x", 12000, 120000), ("lexer", 3000, 60000)],
     oracles=[("c03", 40000, 1200000)],
     full_statement_proved=False,
     missing=("Proved for the model: no panic in dhcpv4.FromBytes, dhcpv4.Options.FromBytes, dhcpv6.FromBytes/MessageFromBytes/"
@@ -32,7 +32,7 @@ CONFIG = dict(
              "talk to the kernel, not to a decoded value) - for all of those the assurance in C03 is the crash search of oracle "
              "c03 on the real code (testing, not proof). The search is mutation-based with behaviour-novelty feedback, not "
              "coverage-guided (no instrumentation in-process)."),
-    rule=("streams v4dec/v6dec: ok/err/panic verdict of the Go decoders vs the Lean model on valid, truncated, length-perturbed and "
+    rule=("lexer: programs of 1..10 reads (Read8/16/32/64, Consume, CopyN, ReadBytes, ReadAll, Has, Len, Error, FinError; lengths around what is left, zero, far too much) on buffers of 0..40 bytes run on the real uio.Lexer and on its model lean/Dhcp/Go/Lexer.lean - the dependency every decoder and every decoder model reads through (thorough: every program of up to 3 operations over a 13-operation alphabet on buffers of 0..5 bytes); streams v4dec/v6dec: ok/err/panic verdict of the Go decoders vs the Lean model on valid, truncated, length-perturbed and "
           "random inputs. stream c03x: every op line carries wire bytes; both sides decode them and call the observer on the "
           "decoded value; verdict AND returned value (canonical text) are compared: DecapsulateRelay, DecapsulateRelayIndex "
           "(relay chains of depth 0..8, thorough to 40, built by hand with and without a relay-message option, generic/duplicated "
